@@ -486,7 +486,7 @@ func runC16(tier string) int {
 	r.Assume("'the line on which the construct was written' is read as any line of the construct's source extent: the command, the label, the operand test incl. its comparison, the switch header, the case, the map-script entry head, the step / item, the whole text/movement/mart statement for the marker at its label, the enclosing command for hoisted text and moves() data; a raw line's own source line; in addition the marker in front of the first line of a multi-line text must not name a line after the one its first part is written on (the following lines of the text are counted from it)",
 		"string literals and raw blocks are single tokens (their inner layout is fixed)")
 	return r.Finish(r.Get("evaluations"), r.Get("nontrivial"),
-		"11 corpus programs covering every marker-emitting construct with unique names (incl. raw blocks whose lines hold a lone carriage return, a CRLF line end and a multi-byte character) x {default, one token per line, all on one line, the first two with Windows line ends} + every layout obtained from the default by inserting <= k extras (line break, blank line, a '#' comment shaped like a preprocessor line marker, '//' comment line) at any token gaps; each layout compiled with lm on / off / on without a path; plus transparency and marker range over every program of the control-flow families (C01 / C03 / C04 bounds: all shapes, dead-label, sequence and scaled programs) and of the data families (C06 hoisting files, C08 mapscripts statements, file-level programs, reduced bounds) with optimize on and off; plus one program placed after K blank lines for every K <= 300 (thorough 3000) and around every power of two up to 2^17 (thorough 2^20); non-trivial = the source has >= 2 lines")
+		"11 corpus programs covering every marker-emitting construct with unique names (incl. raw blocks whose lines hold a lone carriage return, a CRLF line end and a multi-byte character) x {default, one token per line, all on one line, the first two with Windows line ends} + every layout obtained from the default by inserting <= k extras (line break, blank line, a '#' comment shaped like a preprocessor line marker, '//' comment line) at any token gaps; each layout compiled with lm on / off / on without a path; plus transparency and marker range over every program of the control-flow families (C01 / C03 / C04 bounds: all shapes, dead-label, sequence and scaled programs) and of the data families (C06 hoisting files, C08 mapscripts statements, file-level programs, reduced bounds) with optimize on and off; plus one program placed after K blank lines for every K <= 300 (thorough 3000) and around every power of two up to 2^17 (thorough 2^20); the marker before the first line of a multi-part text and before a multiplied step names no line after the one on which that text / the step's name begins; non-trivial = the source has >= 2 lines")
 }
 
 func tagKind(tag string) string { return strings.TrimRight(tag, "0123456789") }
